@@ -50,5 +50,6 @@ def run(rep, tier, seed):
     rep.assume("A1", "A2", "A4", "A5", "A6", "A8")
     D.run_contracts(rep, "C01", D.PART_HEUR + D.MULTIFIT + D.exact() + D.CBLDM + D.heur() + D.cg16(tier), tier, with_lemmas=False, also=("C12",))
     D.run_static(rep, "C01", ("purity",))      # every per-call contract presupposes that results are functions of the arguments
+    D.run_contracts(rep, "C01", D.relational(), tier, only_tagged=True)      # the same postconditions at bounded shape on the real manager classes: concrete, replayable counter-models
     t3(rep, tier, seed)
     D.link_falsifier(rep)
